@@ -165,6 +165,7 @@ impl ProvidedBufferRing {
     // saturation cycles, guaranteeing B_free > 0 on the hot path with no heap allocation.
     const JITTER_CAPACITY_FACTOR: usize = 3;
     let pool = Arc::new(BufferPool::new(buffer_capacity, entry_count as usize * (1 + JITTER_CAPACITY_FACTOR)));
+    #[cfg(rzmq_verif)] verif_access::register(&pool);
 
     let this = Self {
       bgid,
@@ -492,3 +493,4 @@ mod tests {
     pbr.unregister(&ring);
   }
 }
+#[cfg(rzmq_verif)] #[path = "../verif/uring_ring_access.rs"] pub(crate) mod verif_access;
